@@ -35,7 +35,11 @@ def S(scen, cores, steps, **kw):
     d.update(kw)
     return d
 
+from vf.props import poolvalid
+
 QUERIES = [
+    {"name": "V13-stubs", "fn": poolvalid.validate, "concrete": True, "shards": [{}], "timeout": 300,
+     "bound": "stub validation (concrete): 9 scenarios (those of tests/backends/test_local.py plus a skipped dependent and a missing working directory) end in the same states on the deterministic loop with fake children and on real asyncio with real sh children"},
     {"name": "pool", "fn": pool,
      "shards": {"quick": _sp([S("chain", 1, 3), S("one-tl", 1, 3), S("fork", 2, 3), S("one", 1, 2, faults=True), S("chain", 1, 2, faults=True), S("late", 2, 3), S("join", 2, 2)]),
                 "thorough": _sp([S(s, c, 4) for s in ("chain", "one-tl", "fork", "late", "join", "indep-tl") for c in (1, 2)] + [S("chain", 1, 3, faults=True), S("fork", 2, 3, faults=True), S("one-tl", 1, 4, races=True), S("chain", 1, 3, races=True)])},
